@@ -71,3 +71,16 @@ CHECKS["C06"] = {
              "untyped receivers with generic method names are not followed, which is why whole pure modules are in scope regardless of reachability. Text-mode open() "
              "without encoding= (3 sites) is recorded, not armed: all locales the property names decode UTF-8 under CPython 3.12."),
 }
+
+CHECKS["C11"] = {
+    "technique": "static analysis: effect analysis of the repair engine over the call graph (who may write which AST field), dominance of log-before-change, guard dominance, interval reasoning over len(matches), must-pass-through for isfinite, gating by control dependence",
+    "text": ("Decides on repair.py, everything repair() reaches, and the repair call sites in the tools/CLI: the only document store is `<Assignment>.value = <value returned "
+             "by repair_value under was_repaired>`; no store to key/children/sections/meta/target, no container mutators, no node constructions; every `(x, True)` "
+             "return of an _attempt_* function is dominated by repair_log.add(before=<original parameter>, after=<x|str(x)>, tier=REPAIR); the zone / not-fix / "
+             "missing-definition / None guards dominate the repair loop; the case-fold return is reachable only when the guards on len(matches) leave [1,1] and the "
+             "candidates are the case-insensitive equals; the float branch passes math.isfinite and conversion errors are handled; repair(fix=True) is control-dependent "
+             "on the caller's fix/lenient flag (default False) and the unconditional helpers have no other callers; tools copy the whole log; the inline META case-fold in "
+             "octave_write stores only into an existing string key on a unique match under lenient and records before/after."),
+    "note": ("Not decided (value semantics): losslessness of int()/float() on exotic numerals (underscores, Unicode digits), that the new value satisfies the constraint, "
+             "idempotence of repair on repaired documents."),
+}
